@@ -233,6 +233,16 @@ func Run(tier, replay string) {
 		wide["NewNames"] = `{"", "x"}`
 	}
 	emitRun(rep, "terminators", wide, st, 25*time.Minute)
+	// pure queries remembered (TrackQueries): histories "query, edit, print" -- Type() and Succs()
+	// fill the caches Typ / Successors, Retarget then changes what Succs() cached
+	queries := map[string]string{"MaxSrc": "0", "MaxCalls": "6", "MaxPerGroup": "0", "MaxParams": "0", "MaxBlocks": "2", "MaxInsts": "1",
+		"NewNames": `{""}`, "SetNames": `{"y"}`, "InstRes": `{"value"}`, "TermKinds": `{"br", "invoke"}`, "TrackQueries": "TRUE",
+		"Observers": `{"PrintModule", "PrintBlock", "QueryType", "QueryIdent", "QueryOperands", "QuerySuccs"}`}
+	if tier == "thorough" {
+		queries["MaxCalls"] = "7"
+		queries["TermKinds"] = `{"br", "invoke", "callbr", "catchswitch"}`
+	}
+	emitRun(rep, "queries", queries, st, 25*time.Minute)
 
 	if tier == "thorough" {
 		// the object graph closed under all calls (no bound on the history), small structure
@@ -256,7 +266,7 @@ func Run(tier, replay string) {
 		rep.Note("%d histories print, without any observer, something else than the numbering IRState requires: judged by C08, not a C14 verdict", st.divergences)
 	}
 	rep.Exhaustive = true
-	rep.Explanation = "every transition of the three IRState configurations of this tier was emitted and replayed (no sampling)"
+	rep.Explanation = "every transition of the four IRState configurations of this tier was emitted and replayed (no sampling)"
 	rep.Assumptions = []string{
 		"the replay (harness/props/irhist) maps each IRState action to the public API call it stands for; instructions are add/call/store/fence, terminators ret/br/invoke/callbr/catchswitch with placeholder operands",
 		"Type(), Ident(), Operands(), Succs() are called on every object of the module at the observer's position",
